@@ -7,6 +7,7 @@ from scipy import special
 from scipy import stats as sps
 
 from vf import gen, ref, popgen, stats
+from vf.core import spec_key
 
 ID = 'C06'
 BUDGET = {'quick': 320, 'thorough': 20000}
@@ -44,6 +45,15 @@ EM_KINDS = ['gauss', 'mult', 'cm', 'lognorm']
 SEEDS = st.integers(0, 2 ** 31 - 2)
 
 
+def _seeded(draw, d):
+    """Adds the base seed. Hypothesis repeats small integers (0 in ~13% of the draws), which would give many cases
+    the very same noise stream; so in 80% of the cases the drawn integer is mixed with the rest of the spec (the spec
+    records the seed that is actually used, and 0 / 1 / 2^31-2 stay reachable as edge cases)."""
+    base = draw(SEEDS)
+    d['seed'] = base if gen.chance(draw, 0.2) else stats.derive_seed(base, spec_key(d))
+    return d
+
+
 # =============================================================================================
 # strategy
 # =============================================================================================
@@ -79,8 +89,7 @@ def _em_case(draw):
     fixed = None
     if gen.chance(draw, 0.25):
         fixed = draw(gen.subset(ref.EM_NPAR[kind], min_size=0))
-    return dict(mode='em', kind=kind, ybar=ybar, sig=sig, fixed=fixed, steer=steer, ns=_ns(draw),
-                seed=draw(SEEDS))
+    return _seeded(draw, dict(mode='em', kind=kind, ybar=ybar, sig=sig, fixed=fixed, steer=steer, ns=_ns(draw)))
 
 
 def _elem_theta(draw, leaf, n_ids):
@@ -160,8 +169,7 @@ def _pop_case(draw):
         fixed = draw(gen.subset(len(theta), min_size=1, max_size=len(theta) - 1))
         pop = dict(kind='red', base=pop, fixed=fixed, values=[theta[j] for j in fixed])
         theta = [v for j, v in enumerate(theta) if j not in fixed]
-    return dict(mode='pop', pop=pop, n_ids=n_ids, theta=theta, cov=cov, covmode=covmode, ns=_ns(draw),
-                seed=draw(SEEDS))
+    return _seeded(draw, dict(mode='pop', pop=pop, n_ids=n_ids, theta=theta, cov=cov, covmode=covmode, ns=_ns(draw)))
 
 
 @st.composite
